@@ -12,6 +12,8 @@
 //!       7 AtomicBitmap::new(byte_size, page_size) then enlarge(k)  [byte_size, page_size, k]  (byte_size + k < 2^64)
 //!       8 ByteValued::as_bytes() of an object of type oc living at arena + pre  [pre, oc]
 //!         (oc 0 u8 1 u16 2 u32 3 u64 4 [u8;3] 5 [u8;16] 6 u128)
+//!       9 a ByteValued type oc [oc] (as kind 8; 7 = Be32): ops 80 from_slice / 81 from_mut_slice of arena[a..a+b],
+//!         82 zeroed, 83 zeroed().as_slice(), 84 zeroed().as_mut_slice()
 //!   ty 0..3 = u8 u16 u32 u64 (ops 65..69 also 4 = [u8;3], 5 = [u8;16]);  op codes: see coq/Suite/C07.v.
 //!   ops 61..64: the four stream entry points with the crate's OWN adapters as the stream, [script] = [kind, dlen, pos]:
 //!       kind 0 &[u8] = data[pos..]  1 &mut [u8] = data[pos..]  2 Vec<u8>  3 Cursor<&[u8]>  4 Cursor<&mut [u8]>
@@ -685,6 +687,51 @@ fn exec_inner(case: &[Tok]) -> u64 {
                 _ => panic!("bad object type"),
             }
         }
+        9 => {
+            let oc = par[0] as u64;
+            assert!(par.len() == 1 && (80..=84).contains(&op) && a.checked_add(b).map_or(false, |e| e <= 4096));
+            let base = arena();
+            let (ua, ub) = (a as usize, b as usize);
+            macro_rules! bv {
+                ($T:ty) => {
+                    match op {
+                        80 => {
+                            // SAFETY: arena[a .. a+b] lies inside the arena's two read/write pages
+                            let s: &[u8] = unsafe { std::slice::from_raw_parts(base.add(ua), ub) };
+                            obs(|| co(<$T>::from_slice(s)))
+                        }
+                        81 => {
+                            // SAFETY: as above; nothing else refers to the arena during the call
+                            let s: &mut [u8] = unsafe { std::slice::from_raw_parts_mut(base.add(ua), ub) };
+                            obs(|| co(<$T>::from_mut_slice(s)))
+                        }
+                        82 => obs(|| {
+                            let _z: $T = <$T>::zeroed();
+                            0
+                        }),
+                        83 => obs(|| {
+                            let z: $T = <$T>::zeroed();
+                            (z.as_slice().len() != std::mem::size_of::<$T>() || z.as_slice().iter().any(|x| *x != 0)) as u64
+                        }),
+                        _ => obs(|| {
+                            let mut z: $T = <$T>::zeroed();
+                            (z.as_mut_slice().len() != std::mem::size_of::<$T>()) as u64
+                        }),
+                    }
+                };
+            }
+            match oc {
+                0 => bv!(u8),
+                1 => bv!(u16),
+                2 => bv!(u32),
+                3 => bv!(u64),
+                4 => bv!([u8; 3]),
+                5 => bv!([u8; 16]),
+                6 => bv!(u128),
+                7 => bv!(vm_memory::Be32),
+                _ => panic!("bad ByteValued type"),
+            }
+        }
         _ => panic!("bad target"),
     }
 }
@@ -934,6 +981,25 @@ fn gen(rng: &mut Rng, tier: Tier, emit: &mut dyn FnMut(Vec<Tok>)) {
         let par = [addr, len];
         let all: Vec<u64> = (0..=10).collect();
         gen_geom(&mut g, 1, &par, len, addr, &all);
+    }
+    // (a''') ByteValued::from_slice / from_mut_slice on buffers of every length around size_of T at every misalignment
+    // of a 16-aligned backing array; zeroed / as_slice / as_mut_slice
+    for oc in 0..=7u64 {
+        let sz = [1u64, 2, 4, 8, 3, 16, 16, 4][oc as usize];
+        for a in (0..=17u64).chain([32, 4080, 4095, 4096]) {
+            let mut bs = vec![0u64, 1, sz.wrapping_sub(1), sz, sz + 1, 2 * sz, 3, 15, 16, 17, 32];
+            bs.sort();
+            bs.dedup();
+            for &b in &bs {
+                if a + b <= 4096 {
+                    g.put(9, &[oc], 80, 0, a, b, 0, &[]);
+                    g.put(9, &[oc], 81, 0, a, b, 0, &[]);
+                }
+            }
+        }
+        for op in 82..=84u64 {
+            g.put(9, &[oc], op, 0, 0, 0, 0, &[]);
+        }
     }
     // (b) GuestRegionMmap: at guest address 0, ending at 2^64-2, around 2^63 and 2^32
     for &(gb, len) in &[(0u64, 16u64), (TOP - 16, 16), (TOP - 4096, 4096), ((1 << 63) - 8, 16), (0x1000, 1), ((1 << 32) - 4, 9)] {
